@@ -111,6 +111,7 @@ Fixpoint expr_eqb (a b : expr) : bool :=
   | EBin o l r, EBin o' l' r' => binop_eqb o o' && expr_eqb l l' && expr_eqb r r'
   | EUn u x, EUn u' x' => unop_eqb u u' && expr_eqb x x'
   | EParen x, EParen x' => expr_eqb x x'
+  | ECast x k, ECast x' k' => Nat.eqb (ckind_index k) (ckind_index k') && expr_eqb x x'
   | _, _ => false
   end.
 
@@ -125,6 +126,7 @@ Definition ptok_eqb (a b : ptok) : bool :=
   | KAtom x, KAtom y => x =? y
   | KOp s, KOp s' => Nat.eqb (opsym_index s) (opsym_index s')
   | KLp, KLp | KRp, KRp => true
+  | KCast k, KCast k' => Nat.eqb (ckind_index k) (ckind_index k')
   | _, _ => false
   end.
 Fixpoint ptoks_eqb (a b : list ptok) : bool :=
@@ -164,15 +166,57 @@ Definition ptok_of_token (t : token) : option ptok :=
   | _ => None
   end.
 
-Fixpoint ptoks_of_tokens (l : list token) : option (list ptok) :=
+Definition is_upper_name (t : token) : bool :=
+  match t with
+  | (TName, c :: _) => (65 <=? c) && (c <=? 90)
+  | _ => false
+  end.
+Definition is_sym (s : bytes) (t : token) : bool := token_eqb t (TSym, s).
+
+(** the types of the cast stream: after "::" a type name starting with an upper-case letter
+    ([T]), optionally ".Name" ([M.T], still a bare name), "<Name>" type parameters ([T<P>]) or
+    "?" ([T?]); anything else after "::" is outside the modelled fragment ([None]) *)
+Definition cast_type (l : list token) : option (ckind * list token) :=
   match l with
-  | [] => Some []
-  | t :: l' =>
-    match ptok_of_token t, ptoks_of_tokens l' with
-    | Some p, Some r => Some (p :: r)
-    | _, _ => None
+  | n :: l1 =>
+    if is_upper_name n then
+      match l1 with
+      | d :: f :: l2 =>
+        if is_sym [46] d && is_upper_name f then Some (CBare, l2)
+        else if is_sym [60] d && is_upper_name f then
+          match l2 with
+          | g :: l3 => if is_sym [62] g then Some (CParam, l3) else Some (CBare, l1)
+          | [] => Some (CBare, l1)
+          end
+        else if is_sym [63] d then Some (CParam, f :: l2)
+        else Some (CBare, l1)
+      | [d] => if is_sym [63] d then Some (CParam, []) else Some (CBare, l1)
+      | [] => Some (CBare, [])
+      end
+    else None
+  | [] => None
+  end.
+
+Fixpoint ptoks_fuel (f : nat) (l : list token) : option (list ptok) :=
+  match f with
+  | O => None
+  | S f' =>
+    match l with
+    | [] => Some []
+    | t :: l' =>
+      if is_sym [58; 58] t then
+        match cast_type l' with
+        | Some (k, r) => option_map (cons (KCast k)) (ptoks_fuel f' r)
+        | None => None
+        end
+      else
+        match ptok_of_token t, ptoks_fuel f' l' with
+        | Some p, Some r => Some (p :: r)
+        | _, _ => None
+        end
     end
   end.
+Definition ptoks_of_tokens (l : list token) : option (list ptok) := ptoks_fuel (S (List.length l)) l.
 
 (** tokens of the expression in [return <expression>] *)
 Definition expr_ptoks (text : bytes) : option (list ptok) :=
@@ -218,8 +262,9 @@ End WithPTable.
     One case = two statements A and B: the dense text of A alone, of B alone, and the dense
     and readable texts of the block [A B].  Reference criterion (token level, written from
     the Lua grammar: a prefix expression followed by "(" is a call): when A ends with an
-    expression ([s_exprend]), B starts with "(" and the last token of A is ")", "]" or a
-    name that is not a keyword, then a ";" MUST separate them (statements containing a type
+    expression ([s_exprend]), B starts with "(" and the last token of A is ")", "]", a
+    name that is not a keyword, or ">" ">" (the end of an explicit type instantiation
+    [f<<T>>], which is a prefix expression), then a ";" MUST separate them (statements containing a type
     cast "::" are not judged: they may end inside a type, where a name is not a prefix
     expression); in every case the tokens of the block are those of A, then at most one ";",
     then those of B. *)
@@ -233,6 +278,7 @@ Definition must_separate (exprend : bool) (ta tb : list token) : bool :=
   && match tb with t :: _ => token_eqb t (TSym, [40]) | [] => false end
   && match last ta (TSym, []) with
      | (TSym, s) => bytes_eqb s [41] || bytes_eqb s [93]
+                    || (bytes_eqb s [62] && token_eqb (last (removelast ta) (TSym, [])) (TSym, [62]))
      | (TName, s) => negb (is_keyword s)
      | _ => false
      end.
